@@ -139,6 +139,8 @@ func runC03(c *core.Ctx) {
 	c03R5(c)
 	c03R6(c)
 	c20R5as(c, "C03.R7")
+	c03R8(c, "C03.R8")
+	c03R9(c, "C03.R9")
 }
 
 // authorizerImpls returns the Authorize methods of production implementers of service.Authorizer.
@@ -967,4 +969,228 @@ func (oc *originCtx) call(call *ssa.Call, seen map[ssa.Value]bool, d int) keyOri
 		}
 	}
 	return out
+}
+
+// c03R8: the predicates every guard of C03/C11/C14 is written in mean what the guards assume
+// (comparison normal forms; these functions touch the key only through comparisons and bit
+// operations): HasPermission(f) ≡ Permissions()&f == f (all requested bits, not any);
+// IsMaster ≡ Permissions() == AllowMaster; IsExpired ≡ ¬Expires().Equal(zero) ∧
+// Expires().Before(now); SetPermission(f, v) writes Permissions()|f when v, Permissions()&^f
+// otherwise.
+func c03R8(c *core.Ctx, rule string) {
+	c.Rule(rule, "security.Key predicates: HasPermission(f) = (Permissions() & f) == f; IsMaster = Permissions() == AllowMaster; IsExpired = false if Expires().Equal(timeZero), else Expires().Before(time.Now()); SetPermission(f, true/false) = SetPermissions(Permissions() | f / &^ f)", 4)
+	isPerm := func(v ssa.Value, recv ssa.Value) bool {
+		call, ok := eng.StripConv(v).(*ssa.Call)
+		return ok && eng.FuncID(eng.CalleeObj(&call.Call)) == M+"security.Key.Permissions" && eng.CallArgs(&call.Call)[0] == recv
+	}
+	if f := fn(c, rule, "internal/security", "Key", "HasPermission"); f != nil {
+		ok := false
+		rvs := eng.ResultValues(f, 0)
+		if len(rvs) == 1 {
+			if eq, isB := rvs[0].(*ssa.BinOp); isB && eq.Op == token.EQL {
+				for _, pr := range [][2]ssa.Value{{eq.X, eq.Y}, {eq.Y, eq.X}} {
+					and, isAnd := eng.StripConv(pr[0]).(*ssa.BinOp)
+					if !isAnd || and.Op != token.AND || eng.StripConv(pr[1]) != ssa.Value(f.Params[1]) {
+						continue
+					}
+					if (isPerm(and.X, f.Params[0]) && eng.StripConv(and.Y) == ssa.Value(f.Params[1])) || (isPerm(and.Y, f.Params[0]) && eng.StripConv(and.X) == ssa.Value(f.Params[1])) {
+						ok = true
+					}
+				}
+			}
+		}
+		c.Check(ok, rule, fnName(f)+":all requested bits", f.Pos(), "HasPermission(f) is (Permissions() & f) == f", "HasPermission is not `(Permissions() & flag) == flag`: a test for a combination of permissions (or for AllowMaster = all bits) is then satisfied by a key holding only some of them")
+	}
+	if f := fn(c, rule, "internal/security", "Key", "IsMaster"); f != nil {
+		master, _ := constOf(c, rule, "internal/security", "AllowMaster")
+		ok := false
+		rvs := eng.ResultValues(f, 0)
+		if len(rvs) == 1 {
+			if eq, isB := rvs[0].(*ssa.BinOp); isB && eq.Op == token.EQL {
+				for _, pr := range [][2]ssa.Value{{eq.X, eq.Y}, {eq.Y, eq.X}} {
+					if k, isC := eng.ConstInt(pr[1]); isC && k == master && isPerm(pr[0], f.Params[0]) {
+						ok = true
+					}
+				}
+			}
+		}
+		c.Check(ok, rule, fnName(f)+":exactly the master permission set", f.Pos(), "IsMaster is Permissions() == AllowMaster", "IsMaster is not `Permissions() == AllowMaster`: keys that are not master keys could mint keys and ban keys")
+	}
+	if f := fn(c, rule, "internal/security", "Key", "IsExpired"); f != nil {
+		var before, equal *ssa.Call
+		other := ""
+		eng.Instrs(f, func(in ssa.Instruction) {
+			call, ok := in.(*ssa.Call)
+			if !ok {
+				return
+			}
+			switch id := eng.FuncID(eng.CalleeObj(&call.Call)); id {
+			case "time.Time.Before":
+				before = call
+			case "time.Time.Equal":
+				equal = call
+			case "time.Time.After", "time.Time.Compare", "time.Time.Sub", "time.Since", "time.Until":
+				other = id
+			}
+		})
+		isExpires := func(v ssa.Value) bool {
+			v = eng.StripConv(v)
+			if u, ok := v.(*ssa.UnOp); ok && u.Op == token.MUL {
+				if al, ok := u.X.(*ssa.Alloc); ok {
+					for _, r := range *al.Referrers() {
+						if st, ok := r.(*ssa.Store); ok && st.Addr == al {
+							v = st.Val
+						}
+					}
+				}
+			}
+			call, ok := v.(*ssa.Call)
+			return ok && eng.FuncID(eng.CalleeObj(&call.Call)) == M+"security.Key.Expires"
+		}
+		fromNow := func(v ssa.Value) bool {
+			for d := 0; d < 4; d++ {
+				call, ok := eng.StripConv(v).(*ssa.Call)
+				if !ok {
+					return false
+				}
+				id := eng.FuncID(eng.CalleeObj(&call.Call))
+				if id == "time.Now" {
+					return true
+				}
+				if id != "time.Time.UTC" && id != "time.Time.Local" {
+					return false
+				}
+				v = eng.CallArgs(&call.Call)[0]
+			}
+			return false
+		}
+		ok := before != nil && equal != nil && other == ""
+		if ok {
+			ba := eng.CallArgs(&before.Call)
+			ea := eng.CallArgs(&equal.Call)
+			ok = isExpires(ba[0]) && fromNow(ba[1]) && isExpires(ea[0])
+			// results: false (under Equal) or the Before call
+			for _, rv := range eng.ResultValues(f, 0) {
+				if b, isC := constBoolOf(rv); isC {
+					if b {
+						ok = false
+					}
+					continue
+				}
+				if rv != ssa.Value(before) {
+					ok = false
+				}
+			}
+			// the `false` is returned only when the expiry equals the zero time
+			if ok {
+				eng.Instrs(f, func(in ssa.Instruction) {
+					ret, isRet := in.(*ssa.Return)
+					if !isRet {
+						return
+					}
+					if b, isC := constBoolOf(ret.Results[0]); isC && !b {
+						g := eng.Guarded(ret, eng.ValuePred("Expires().Equal(timeZero)", equal, true))
+						if !g.Guarded {
+							ok = false
+						}
+					}
+				})
+			}
+		}
+		c.Check(ok, rule, fnName(f)+":expiry before now", f.Pos(), "IsExpired is false for the zero expiry and Expires().Before(now) otherwise", "IsExpired is not `!Expires().Equal(timeZero) && Expires().Before(time.Now())`: expired keys could keep authorising, or unexpired keys be refused")
+	}
+	if f := fn(c, rule, "internal/security", "Key", "SetPermission"); f != nil {
+		sets := eng.Calls(f, false, M+"security.Key.SetPermissions")
+		okOr, okClr := false, false
+		valP := eng.ValuePred("value", f.Params[2], true)
+		for _, s := range sets {
+			arg := eng.StripConv(eng.CallArgs(s.Common())[1])
+			bo, isB := arg.(*ssa.BinOp)
+			if !isB {
+				continue
+			}
+			flag := ssa.Value(f.Params[1])
+			hasPF := func(x, y ssa.Value) bool { return isPerm(x, f.Params[0]) && eng.StripConv(y) == flag }
+			switch bo.Op {
+			case token.OR:
+				if (hasPF(bo.X, bo.Y) || hasPF(bo.Y, bo.X)) && eng.Guarded(s.(ssa.Instruction), valP).Guarded {
+					okOr = true
+				}
+			case token.AND_NOT:
+				if hasPF(bo.X, bo.Y) && eng.Guarded(s.(ssa.Instruction), eng.ValuePred("!value", f.Params[2], false)).Guarded {
+					okClr = true
+				}
+			case token.AND:
+				// p & ^flag
+				for _, pr := range [][2]ssa.Value{{bo.X, bo.Y}, {bo.Y, bo.X}} {
+					if x, isX := eng.StripConv(pr[1]).(*ssa.BinOp); isX && x.Op == token.XOR && isPerm(pr[0], f.Params[0]) {
+						if k, isC := eng.ConstInt(x.X); isC && (k == -1 || k == 255) && eng.StripConv(x.Y) == flag {
+							if eng.Guarded(s.(ssa.Instruction), eng.ValuePred("!value", f.Params[2], false)).Guarded {
+								okClr = true
+							}
+						}
+					}
+					if u, isU := eng.StripConv(pr[1]).(*ssa.UnOp); isU && u.Op == token.XOR && eng.StripConv(u.X) == flag && isPerm(pr[0], f.Params[0]) {
+						if eng.Guarded(s.(ssa.Instruction), eng.ValuePred("!value", f.Params[2], false)).Guarded {
+							okClr = true
+						}
+					}
+				}
+			}
+		}
+		c.Check(okOr && okClr && len(sets) == 2, rule, fnName(f)+":sets or clears exactly the flag", f.Pos(), "SetPermission(f, true) ORs the flag in, SetPermission(f, false) clears exactly those bits", "SetPermission does not set `Permissions()|flag` under value and `Permissions()&^flag` otherwise: CreateKey/ExtendKey clear AllowMaster/AllowExtend through it, a wrong mask leaves the minted key stronger than requested")
+	}
+}
+
+// c03R9: a revoked contract stops authorising at the next refresh. The HTTP contract
+// provider's periodic refresh replaces every cached contract by what the contract service
+// answers now: in the Range callback of refresh, every successful fetchContract(id) is followed
+// by cache.Store(id, <the fetched contract>) — no path keeps the cached object (its State may
+// have changed to refused while id, master and signature stayed the same).
+func c03R9(c *core.Ctx, rule string) {
+	c.Rule(rule, "HTTPContractProvider.refresh: for every cached id, a successful fetchContract(id) is always followed by cache.Store(id, fetched) with the fetched object (the cached contract is never kept in place of the fresh answer); refresh is the function scheduled by async.Repeat in Configure", 2)
+	f := fn(c, rule, "internal/provider/contract", "HTTPContractProvider", "refresh")
+	if f == nil {
+		return
+	}
+	idFetch := M + "provider/contract.HTTPContractProvider.fetchContract"
+	checked := 0
+	for _, g := range eng.WithAnon(f) {
+		for _, fc := range eng.Calls(g, false, idFetch) {
+			checked++
+			fetchOK := eng.ValuePred("fetchContract ok", extractOf(fc.Value(), 1), true)
+			stores := func(in ssa.Instruction) bool {
+				if !eng.IsCallTo(in, "sync.Map.Store") {
+					return false
+				}
+				a := eng.CallArgs(in.(ssa.CallInstruction).Common())
+				v := a[2]
+				if mi, ok := v.(*ssa.MakeInterface); ok {
+					v = mi.X
+				}
+				return isExtractOf(v, fc.Value(), 0)
+			}
+			ok, w := eng.MustFollow(g, []eng.Pred{fetchOK}, stores)
+			ok = ok && eng.HasLicensingEdge(g, fetchOK)
+			if ok {
+				c.OK(rule, fnName(g)+":fresh answer replaces the cached contract", fc.Pos(), "every successful fetch is stored")
+			} else {
+				c.Fail(rule, fnName(g)+":fresh answer replaces the cached contract", fc.Pos(), "a path of the periodic refresh fetches the contract successfully but keeps the cached object instead of storing the fresh one: a contract whose state was changed to refused (same id, master and signature) keeps validating keys", w...)
+			}
+		}
+	}
+	if checked == 0 {
+		c.Fail(rule, fnName(f)+":refetches", f.Pos(), "refresh no longer refetches the cached contracts")
+	}
+	// scheduled
+	if cfg := fn(c, rule, "internal/provider/contract", "HTTPContractProvider", "Configure"); cfg != nil {
+		sched := false
+		for _, call := range eng.Calls(cfg, false, M+"async.Repeat") {
+			a := eng.CallArgs(call.Common())
+			if fv, _ := eng.FuncValue(a[2]); fv == f {
+				sched = true
+			}
+		}
+		c.Check(sched, rule, fnName(cfg)+":schedules refresh", cfg.Pos(), "refresh runs periodically", "Configure does not schedule refresh with async.Repeat: cached contracts are never re-read")
+	}
 }
